@@ -9,9 +9,9 @@ CONSTANTS Keys = {"k0", "k1"}
           Interval = 2
           Initial = 1
           FailRetry = 1
-          MaxT = 6
+          MaxT = 4
           MaxSeq = 1
-          MaxOps = 3
+          MaxOps = 2
           MaxRounds = 0
           TrackW0 = FALSE
           UseRun = TRUE
